@@ -518,6 +518,8 @@ func (g *vGen) hostilePrefix(steps int, hostile bool) {
 			} else if r.Intn(2) == 0 {
 				s.exec(&vOp{Op: "tick", N: c.At, Peer: c.Peer})
 			}
+		case x < 96 && hostile && r.Intn(3) == 0:
+			s.exec(&vOp{Op: "restart", N: c.At})
 		case x < 98:
 			// a node creates a transaction of its own
 			k := c.At
@@ -565,6 +567,18 @@ func (g *vGen) runScenario(idx int, dir string) vVerdict {
 	}
 	feats = append(feats, fmt.Sprintf("prefix-steps=%d", steps), fmt.Sprintf("maxmsg=%d", sc.MaxMsg), fmt.Sprintf("nodes=%d", nNodes))
 	g.hostilePrefix(steps, hostile)
+	// node restarts: before the suffix and again after the first / second round (digests are written while transactions on
+	// later pages arrive, then reloaded)
+	s.restartAt = map[int]int{}
+	if idx%3 == 1 {
+		who := r.Intn(nNodes)
+		s.restartAt[0] = who
+		s.restartAt[1] = who
+		if r.Intn(2) == 0 {
+			s.restartAt[2] = r.Intn(nNodes)
+		}
+		feats = append(feats, "restarts")
+	}
 	// the fair suffix: every connection is (re-)established first
 	for _, cc := range s.sc.Conns {
 		c := s.nodes[cc.At].conns[cc.Peer]
